@@ -254,3 +254,78 @@ func c02HttpManyStreams(r *Run) {
 	r.Eval("httpmany", true)
 	r.CountN("c02.httpmany.completed", completed)
 }
+
+// c02DemuxLongBurst: a client-streaming call of 200 messages through the demultiplexer (client – Demux –
+// Server) whose handler reads three messages, pauses 300 ms while the caller sends on, then reads to the
+// end. However much the demultiplexer holds for a connection that is not reading, the handler receives
+// the caller's sequence exactly.
+func c02DemuxLongBurst(r *Run) {
+	if !r.Want("demuxburst") {
+		return
+	}
+	for _, serialise := range []bool{true, false} {
+		n := c01Demux(serialise, 1)
+		const msgs = 200
+		in := map[string]any{"topology": "client-demux-server", "messages": msgs, "handler": "reads 3, pauses 300 ms, reads on", "serialise": serialise}
+		r.Progress("demuxburst", in)
+		var got [][]byte
+		hdone := make(chan struct{})
+		n.impl.SetStream(func(m string, ss grpc.ServerStream) error {
+			defer close(hdone)
+			for i := 0; ; i++ {
+				if i == 3 {
+					time.Sleep(300 * time.Millisecond)
+				}
+				b, err := recvB(ss)
+				if err != nil {
+					break
+				}
+				got = append(got, b)
+			}
+			return sendB(ss, []byte("sum"))
+		})
+		var want [][]byte
+		var term error
+		ok := within(4*hangTimeout, func() {
+			ctx, cancel := context.WithTimeout(context.Background(), 3*hangTimeout)
+			defer cancel()
+			cs, err := n.ccs[0].NewStream(ctx, descCli, mCliStream)
+			if err != nil {
+				term = err
+				return
+			}
+			for i := 0; i < msgs; i++ {
+				p := []byte(fmt.Sprintf("burst-%03d", i))
+				if err := sendB(cs, p); err != nil {
+					term = err
+					return
+				}
+				want = append(want, p)
+			}
+			cs.CloseSend()
+			for {
+				if _, err := recvB(cs); err != nil {
+					term = err
+					break
+				}
+			}
+			<-hdone
+		})
+		r.Eval(fmt.Sprintf("demuxburst/%v", serialise), true)
+		r.Count("c02.demuxburst")
+		if !ok {
+			r.Violate("demuxburst.hang", "history", "the stream did not finish", in, goroutineDump(), nil)
+		} else {
+			if !seqEqual(got, want) {
+				r.Violate("demuxburst.c2s", "history", "the handler behind the demultiplexer did not receive exactly what the caller sent, in order", in, fmt.Sprintf("%d messages: %s", len(got), seqStr(got)), fmt.Sprintf("%d messages", len(want)))
+			}
+			if term != io.EOF {
+				r.Violate("demuxburst.eof", "history", "the stream did not end with io.EOF", in, fmt.Sprint(term), "EOF")
+			}
+		}
+		n.close()
+		if !ok {
+			return
+		}
+	}
+}
